@@ -184,7 +184,18 @@ func runC05(c *Ctx) {
 		o = docOpts{exhaustiveLen: 3, corpus: true, random: 200000, randomTok: 16, mutants: 200000, blockLines: 3, randLines: 200000}
 	}
 	items := collectDocs(c, o, func(add func(string, []byte)) {
-		for _, t := range []string{"- Foo\n--", "|a|\n|-|\n", ">\t# ab", "-\t# ab", "a\n=\n", "[^a] [^b] [^c]\n\n[^a]: 1\n\n[^c]: 3\n\n[^b]: 2\n", "[a]: /u\n===\n", "[![a](b)](c)", "[a [b](c) d](e)", "*a **b* c**", "`a\nb`", "<a\nb>", "t\n: d\n\n  e", "0\n-:\n-", "|a|b|\n|-|-|\n|`c\\|d`|\n", "- [x] a\n  - [ ] b", "~~a *b~~ c*", "> - a\n>   b\n> c", "1. a\n\n   b\n2. c", "\ta\n\tb", "```\n>\t\tx\n```", "[a]:\n/u\n't'\nb"} {
+		nn := 6000
+		if !c.Quick() {
+			nn = 200000
+		}
+		for i := 0; i < nn; i++ {
+			d := nestedInlines(c.R, 2+c.R.Intn(4))
+			if c.R.Intn(2) == 0 {
+				d += "\n\n[r]: /ref"
+			}
+			add("nested-inlines", []byte(d))
+		}
+		for _, t := range []string{"[![*[a](/u1)*](/u2)](/u3)", "[![_[a]_](/u2)][a]\n\n[a]: /u1", "- Foo\n--", "|a|\n|-|\n", ">\t# ab", "-\t# ab", "a\n=\n", "[^a] [^b] [^c]\n\n[^a]: 1\n\n[^c]: 3\n\n[^b]: 2\n", "[a]: /u\n===\n", "[![a](b)](c)", "[a [b](c) d](e)", "*a **b* c**", "`a\nb`", "<a\nb>", "t\n: d\n\n  e", "0\n-:\n-", "|a|b|\n|-|-|\n|`c\\|d`|\n", "- [x] a\n  - [ ] b", "~~a *b~~ c*", "> - a\n>   b\n> c", "1. a\n\n   b\n2. c", "\ta\n\tb", "```\n>\t\tx\n```", "[a]:\n/u\n't'\nb"} {
 			add("targeted", []byte(t))
 		}
 	})
